@@ -624,7 +624,13 @@ class _Run:
                 if len(recv.labels) < 2:
                     return recv
                 raise TypeErr(f".t() on a rank-{len(recv.labels)} tensor {recv}")
-            if name in ("to", "contiguous", "float", "half", "clone", "detach", "type"):
+            if name in ("to", "contiguous", "float", "half", "bfloat16", "clone", "detach", "type"):
+                # single rounding: an accumulator of raw codes is narrowed to the output dtype only once every payload is scaled
+                narrowing = name in ("half", "bfloat16") or (name in ("to", "type") and isinstance(node, ast.Call) and node.args
+                                                              and U(node.args[0]) not in ("torch.float32", "torch.float", "torch.float64", "torch.double"))
+                if narrowing and recv.kind != "code" and recv.codes and not recv.balanced():
+                    raise TypeErr(f"accumulator narrowed to the output dtype (`{U(node)[-60:]}`) while its raw payloads {sorted(recv.codes)} are not matched by its scales {list(recv.scales)}: "
+                                  "the partially scaled product can overflow the output dtype and the result is rounded twice")
                 return recv.like()
             if name == "dequantize":
                 return recv
